@@ -269,3 +269,7 @@ PROPS = {
         "assumptions": [],
     },
 }
+
+# the thorough tier: ten times the quick volume (vm_compute inside Coq costs ~5-20 ms per case; an extracted runner was not needed)
+for _p, _c in PROPS.items():
+    _c["n"]["thorough"] = _c["n"]["quick"] * 10
